@@ -16,7 +16,8 @@
 EXTENDS Integers, Sequences, FiniteSets, SequencesExt, Functions
 
 Error == [error |-> TRUE]
-DSMClasses == {"InflowDrivenDSM", "StockDrivenDSM"}
+\* "UserStockDrivenDSM": a user-defined subclass of StockDrivenDSM that does not redeclare any field
+DSMClasses == {"InflowDrivenDSM", "StockDrivenDSM", "UserStockDrivenDSM"}
 AllClasses == DSMClasses \cup {"SimpleFlowDrivenStock"}
 
 RangeS(s) == {s[i] : i \in DOMAIN s}
@@ -62,7 +63,7 @@ Build(d) ==
           stocks |-> [i \in DOMAIN d.stocks |->
                         LET s == d.stocks[i] IN
                         [name |-> s.name, cls |-> s.cls, lm |-> s.lm,
-                         solver |-> IF s.cls = "StockDrivenDSM" THEN s.solver ELSE "",
+                         solver |-> IF s.cls \in {"StockDrivenDSM", "UserStockDrivenDSM"} THEN s.solver ELSE "",
                          tl |-> s.tl, proc |-> s.proc, dims |-> s.dims]],
           params |-> [i \in DOMAIN d.params |-> [name |-> d.params[i].name, dims |-> d.params[i].dims]]]
 
